@@ -355,6 +355,111 @@ def work_rendezvous(seed: int) -> tuple:
         bench.close()
 
 
+EXIT_SHAPES = [bytes(24), bytes([0, 0, 0, 3]) + bytes(20), bytes([0, 0, 0, 4]) + bytes(20), b"\xff" * 24,
+               bytes.fromhex("0000041727101980") + bytes(16), b"d1:ad2:id20:" + b"a" * 12, b"d" + b"1" * 22 + b"e",
+               bytes([0x01]) + bytes(23), bytes([0x11]) + bytes(23), bytes([0x21]) + bytes(23), bytes([0x31]) + bytes(23),
+               bytes([0x41]) + bytes(23), b"\x00\x02" + bytes(range(1, 21)) + b"\xf9\x00", b"\x00\x01" + bytes(22)]
+
+
+def work_exit_socket(seed: int) -> tuple:
+    """
+    Datagrams arriving from the outside world on an exit node's open outside sockets (the receive path of
+    TunnelExitSocket): every length 0..24 of 14 leading-byte shapes (what the traffic classifier branches on) on the
+    IPv4 and the IPv6 transport, for every exit flag set. Nothing may reach the loop's exception handler.
+    """
+    from ..tunnelworld import EXIT_BT  # noqa: PLC0415
+    viol: dict = {}
+    n = 0
+    for flags_name, flags in (("relay-only", RELAY), ("exit-bt", EXIT_BT), ("exit-all", EXIT_ALL)):
+        w = TunnelWorld(("c03-exit", seed, flags_name), {"O": RELAY, "X": flags}, key_offset=seed)
+        try:
+            c = w.build_circuit("O", ["X"])
+            w.send_out("O", c, ("9.9.9.9", 99), BT_PAYLOAD)
+            w.flush()
+            transports = list(w.open_transports())
+            if flags_name != "relay-only" and len(transports) < 2:
+                viol.setdefault("harness:exit-socket-not-open", (f"{flags_name}: {len(transports)} transports", None))
+            for t in transports:
+                v6 = ":" in t.local_addr[0]
+                for shape_i, shape in enumerate(EXIT_SHAPES):
+                    for ln in range(len(shape) + 1):
+                        src = ("2001:db8::9", 99, 0, 0) if v6 else ("9.9.9.9", 99)
+                        n += 1
+                        before = len(w.loop.exceptions)
+                        t.inject(shape[:ln], src)
+                        w.flush()
+                        if len(w.loop.exceptions) > before:
+                            exc = w.loop.exceptions[-1].get("exception")
+                            viol.setdefault(f"exit-socket-receive-raises:{type(exc).__name__}",
+                                            (f"outside datagram {shape[:ln].hex()} ({ln} bytes) on the exit's "
+                                             f"{'IPv6' if v6 else 'IPv4'} socket ({flags_name}): {exc!r} reached the loop",
+                                             {"exit_socket": True, "seed": seed}))
+        finally:
+            w.close()
+    return n, viol
+
+
+def work_broadcast(seed: int) -> tuple:
+    """
+    The second datagram socket an overlay may own: BroadcastBootstrapEndpoint.datagram_received. Every prefix of a valid
+    announce, announces for every other overlay prefix, over-long announces, and the short / prefix-id-tail families of the
+    main receive path. It may raise nothing; the overlay is asked to walk only for an announce that names exactly its
+    own prefix; a datagram that does not carry the overlay's prefix does not reach its on_packet.
+    """
+    from ipv8.bootstrapping.udpbroadcast.bootstrapper import HDR_ANNOUNCE, BroadcastBootstrapEndpoint  # noqa: PLC0415
+    viol: dict = {}
+    n = 0
+    w = simnet.World(("c03-broadcast", seed))
+    try:
+        node = w.add_node("H", fixtures.rotate(seed, 1)[0])
+        ov = node.add_overlay(_CA)
+        bep = BroadcastBootstrapEndpoint(ov)
+        walked: list = []
+        packets: list = []
+        ov.walk_to = lambda addr: walked.append(addr)
+        orig = ov.on_packet
+        ov.on_packet = lambda packet, warn_unknown=True: (packets.append(packet), orig(packet))[1]
+        own = ov.get_prefix()
+        others = sorted({bytes([0, 2]) + cls.community_id for cls, _ in overlays.OVERLAYS.values()
+                         if getattr(cls, "community_id", None)} | {b"\x00\x02" + _CB.community_id})
+        full = HDR_ANNOUNCE + own
+        inputs = [full[:k] for k in range(len(full) + 1)]
+        inputs += [HDR_ANNOUNCE + p for p in others] + [full + b"\x00", full + own, HDR_ANNOUNCE + b"\x00\x02"]
+        inputs += [own[:k] for k in range(len(own) + 1)] + [own + bytes([i]) + tail for i in range(256)
+                                                           for tail in (b"", b"\x00" * 4)]
+        inputs += list(short_strings())
+        src = ("66.66.66.66", 6666)
+        for data in inputs:
+            n += 1
+            del walked[:]
+            del packets[:]
+            try:
+                bep.datagram_received(data, src)
+                w.loop.settle()
+            except Exception as e:  # noqa: BLE001
+                viol.setdefault(f"broadcast-socket-raises:{type(e).__name__}",
+                                (f"datagram {data[:40].hex()} on the broadcast socket raised {e!r}",
+                                 {"broadcast": True, "seed": seed}))
+                continue
+            if walked and data != full:
+                viol.setdefault("broadcast-socket:walk-for-foreign-or-truncated-announce",
+                                (f"datagram {data.hex()} made the overlay walk to its sender; only {full.hex()} names this "
+                                 f"overlay", {"broadcast": True, "seed": seed}))
+            if data == full and not walked:
+                viol.setdefault("harness:broadcast-valid-announce-ignored", ("valid announce did not trigger a walk",
+                                                                             {"broadcast": True, "seed": seed}))
+            if packets and not data.startswith(own):
+                viol.setdefault("broadcast-socket:foreign-datagram-reaches-overlay",
+                                (f"datagram {data[:40].hex()} without the overlay's prefix reached on_packet",
+                                 {"broadcast": True, "seed": seed}))
+            del w.inflight[:]
+        if w.loop.exceptions:
+            viol.setdefault("loop-exception:broadcast", (str(w.loop.exceptions[0])[:300], {"broadcast": True, "seed": seed}))
+        return n, viol
+    finally:
+        w.close()
+
+
 def work_snapshot(seed: int) -> tuple:
     viol: dict = {}
     n = 0
@@ -394,7 +499,20 @@ class _CB(overlays.PlainCommunity):
     community_id = bytes(range(31, 51))
 
 
-CHURN_ALPHABET = ["dA", "dB", "dU", "loadA", "unloadA", "loadB", "unloadB", "sniff", "loadA2", "unloadA2"]
+CHURN_ALPHABET = ["dA", "dB", "dU", "loadA", "unloadA", "loadB", "unloadB", "sniff", "loadA2", "unloadA2", "oneshot"]
+
+
+class OneShot(EndpointListener):
+    """A generic listener that unregisters itself from inside on_packet (legal: removal is synchronous)."""
+
+    def __init__(self, endpoint) -> None:  # noqa: ANN001
+        super().__init__(endpoint)
+        self.seen = 0
+        endpoint.add_listener(self)
+
+    def on_packet(self, packet) -> None:  # noqa: ANN001
+        self.seen += 1
+        self.endpoint.remove_listener(self)
 
 
 def work_churn(chunk: list) -> list:
@@ -466,6 +584,8 @@ def work_churn(chunk: list) -> list:
                         w.loop.drive(live.pop("B")[0].unload())
                     elif ev == "sniff" and len(sniffers) < 2:
                         sniffers.append(Sniffer(node.endpoint))
+                    elif ev == "oneshot":
+                        OneShot(node.endpoint)
             finally:
                 w.close()
         out.append((n, viol))
@@ -582,7 +702,13 @@ def run(ctx: core.Ctx) -> core.Report:
     n_rdv, rdv_states, v = work_rendezvous(seed)
     for key, (what, rp) in v.items():
         violations.append(core.Violation(key, what, rp))
-    depth = 5 if ctx.thorough else 4    # 10-event alphabet (two overlays, a twin on the same prefix, a sniffer)
+    n_exit, v = work_exit_socket(seed)
+    for key, (what, rp) in v.items():
+        violations.append(core.Violation(key, what, rp))
+    n_bc, v = work_broadcast(seed)
+    for key, (what, rp) in v.items():
+        violations.append(core.Violation(key, what, rp))
+    depth = 5 if ctx.thorough else 4    # 11-event alphabet (two overlays, a twin on the same prefix, a sniffer)
     churn = core.pmap(work_churn, [(i, depth, seed) for i in range(len(CHURN_ALPHABET))], ctx.jobs, chunk=1)
     n_churn = sum(c[0] for c in churn)
     for _, viol in churn:
@@ -603,7 +729,7 @@ def run(ctx: core.Ctx) -> core.Report:
     for key, (what, rp) in sorted(fold.items())[:12]:
         violations.append(core.Violation(key, what, rp))
     dec["violating_classes"] = len({k.split(":")[1] for k in fold})
-    total = evals + n_cells + n_snap + dec["evaluations"] + n_churn + n_rdv
+    total = evals + n_cells + n_snap + dec["evaluations"] + n_churn + n_rdv + n_exit + n_bc
     cov = {
         "evaluations": total,
         "distinct_nontrivial": total - len(items),
@@ -619,6 +745,7 @@ def run(ctx: core.Ctx) -> core.Report:
         "handler_entries_observed": entered,
         "cell_inputs": n_cells, "cell_kinds": cell_kinds,
         "snapshot_inputs": n_snap,
+        "exit_socket_inputs": n_exit, "broadcast_socket_inputs": n_bc,
         "rendezvous_relays": {"inputs": n_rdv, "table_states": rdv_states,
                               "rule": "recorded valid cells of a linked hidden-service circuit x every subset of the relay "
                                       "entries of the rendezvous point and of the downloader-side relay removed"},
@@ -644,6 +771,10 @@ def replay(ctx: core.Ctx, data) -> list:  # noqa: ANN001
         return out
     if data.get("cells"):
         return [core.Violation(k, w) for k, (w, _) in work_cells(data["seed"])[2].items()]
+    if data.get("exit_socket"):
+        return [core.Violation(k, w) for k, (w, _) in work_exit_socket(data["seed"])[1].items()]
+    if data.get("broadcast"):
+        return [core.Violation(k, w) for k, (w, _) in work_broadcast(data["seed"])[1].items()]
     if data.get("rendezvous"):
         return [core.Violation(k, w) for k, (w, _) in work_rendezvous(data["seed"])[2].items()]
     if "snapshot" in data:
